@@ -1027,4 +1027,90 @@ theorem empty_sound (hI : Ideal A) (rc : RCfg) (hch : rc.checkHash = true)
     | some w => simp at h
     | none => simpa [ValOK] using this
 
+theorem afterR_complete {rc : RCfg} {P : PSet H} {allow : Bool} {t' : Tree H} {n fuel : Nat}
+    {node : PNode H} {key key' : Path} (hwf : WF t' n) (hk : key'.length = n)
+    (ih : 0 < n → ∃ path, resolveAux A rc P allow fuel (t'.hash A) key' = some (path, some (t'.get A key'))) :
+    ∃ path, afterR A rc P allow fuel node key (t'.child A) key' = some (path, some (t'.get A key')) := by
+  unfold afterR
+  cases t' with
+  | leaf v =>
+    have : n = 0 := hwf.leaf_inv
+    subst this
+    exact ⟨[(node, key)], by simp [Tree.child, hk, Tree.get]⟩
+  | bin l r =>
+    obtain ⟨n', rfl, _, _⟩ := hwf.bin_inv
+    have hne : ¬ key'.length = 0 := by omega
+    obtain ⟨path, hp⟩ := ih (by omega)
+    exact ⟨(node, key) :: path, by simp only [Tree.child, hne, decide_false, Bool.and_false, Bool.false_eq_true, if_false, hp]⟩
+  | edge p c =>
+    obtain ⟨n', rfl, hp0, _⟩ := hwf.edge_inv
+    have hplen : 0 < p.length := List.length_pos_iff.mpr hp0
+    have hne : ¬ key'.length = 0 := by omega
+    obtain ⟨path, hp⟩ := ih (by omega)
+    exact ⟨(node, key) :: path, by simp only [Tree.child, hne, decide_false, Bool.and_false, Bool.false_eq_true, if_false, hp]⟩
+
+theorem resolve_complete (rc : RCfg) (P : PSet H) (allow legacy cached : Bool) :
+    ∀ (s : Tree H) (m fuel : Nat) (key : Path), WF s m → 0 < m → key.length = m → m ≤ fuel →
+      s.has key = true →
+      (∀ nd ∈ s.proveNodes A legacy cached key, P.get (nd.hash A) = some nd) →
+      ∃ path, resolveAux A rc P allow fuel (s.hash A) key = some (path, some (s.get A key)) := by
+  intro s
+  induction s with
+  | leaf x => intro m fuel key hwf hm; have := hwf.leaf_inv; omega
+  | bin l r ihl ihr =>
+    intro m fuel key hwf hm hk hfuel hhas hlook
+    obtain ⟨n, rfl, hl, hr⟩ := hwf.bin_inv
+    obtain ⟨f, rfl⟩ : ∃ f, fuel = f + 1 := ⟨fuel - 1, by omega⟩
+    rw [proveNodes_bin] at hlook
+    have h0 := hlook _ (List.mem_cons_self ..)
+    have hh0 : (PNode.bin (l.child A) (r.child A)
+        (if cached then some ((Tree.bin l r).hash A) else none)).hash A = (Tree.bin l r).hash A := by
+      simp [PNode.hash, Tree.hash, Tree.child_felt]
+    rw [hh0] at h0
+    rw [resolveAux_succ h0 (by simp [hh0])]
+    have hkl : (key.drop 1).length = n := by simp; omega
+    simp only [step2, Tree.get, Tree.has] at hhas ⊢
+    rw [← List.drop_one] at hhas ⊢
+    cases hb : key.headD false with
+    | true =>
+      rw [hb] at hlook hhas
+      simp only [if_true] at hlook hhas ⊢
+      exact afterR_complete hr hkl (fun hn => ihr n f _ hr hn hkl (by omega) hhas
+        (fun nd hnd => hlook nd (List.mem_cons_of_mem _ (by simpa [List.drop_one] using hnd))))
+    | false =>
+      rw [hb] at hlook hhas
+      simp only [Bool.false_eq_true, if_false] at hlook hhas ⊢
+      exact afterR_complete hl hkl (fun hn => ihl n f _ hl hn hkl (by omega) hhas
+        (fun nd hnd => hlook nd (List.mem_cons_of_mem _ (by simpa [List.drop_one] using hnd))))
+  | edge p c ih =>
+    intro m fuel key hwf hm hk hfuel hhas hlook
+    obtain ⟨n, rfl, hp, hc⟩ := hwf.edge_inv
+    have hplen : 0 < p.length := List.length_pos_iff.mpr hp
+    obtain ⟨f, rfl⟩ : ∃ f, fuel = f + 1 := ⟨fuel - 1, by omega⟩
+    rw [proveNodes_edge] at hlook
+    have h0 := hlook _ (List.mem_cons_self ..)
+    have hh0 : (PNode.edge p (c.child A)
+        (if cached then some ((Tree.edge p c).hash A) else none)).hash A = (Tree.edge p c).hash A := by
+      simp [PNode.hash, Tree.hash, Tree.child_felt]
+    rw [hh0] at h0
+    rw [resolveAux_succ h0 (by simp [hh0])]
+    have hcomp : pathCompat p key = p.isPrefixOf key := by
+      rw [pathCompat_comm]; exact pathCompat_of_le (by omega)
+    simp only [Tree.has, Bool.and_eq_true] at hhas
+    obtain ⟨hpre, hhas'⟩ := hhas
+    rw [hpre] at hlook
+    simp only [step2, hcomp, hpre, Tree.get, Bool.not_true, Bool.false_eq_true, if_false, if_true] at hlook ⊢
+    have hkl : (key.drop p.length).length = n := by simp; omega
+    exact afterR_complete hc hkl (fun hn => ih n f _ hc hn hkl (by omega) hhas'
+      (fun nd hnd => hlook nd (List.mem_cons_of_mem _ hnd)))
+
+theorem single_complete (rc : RCfg) (s : Tree H) (n : Nat) (hwf : WF s n) (hn : 0 < n)
+    (h256 : n < 256) (k : Path) (hk : k.length = n) (hhas : s.has k = true)
+    (hv : s.get A k ≠ A.zero) (legacy cached : Bool) (P : PSet H)
+    (hlook : ∀ nd ∈ s.proveNodes A legacy cached k, P.get (nd.hash A) = some nd) :
+    ∃ more, verifySingle A rc (s.hash A) k (s.get A k) P = RRes.ok more := by
+  obtain ⟨path, hp⟩ := resolve_complete (A := A) rc P false legacy cached s n verifyFuel k hwf hn hk
+    (verifyFuel_ge h256) hhas hlook
+  exact ⟨hasRight path, by simp [verifySingle, hv, hp]⟩
+
 end Juno.C10
